@@ -25,6 +25,10 @@ namespace Givaro {
         _prod(one), _ck(0)
     {
         GIVARO_ASSERT( inprimes.size()>0, "[IntRNSsystem::IntRNSsystem] bad size of array");
+        // the product and the reciprocals are computed here, not at the first call of a const accessor
+        // (product(), Reciprocals(), reciprocal(i), RnsToMixedRadix filled them through a cast of `this`:
+        //  a write to a shared const object, i.e. a data race between two threads making the first use)
+        if (_primes.size()>0) { ComputeProd(); ComputeCk(); }
     }
 
     // -- Array of primes are given
@@ -39,6 +43,7 @@ namespace Givaro {
         typename Container<TT, Alloc<TT> >::const_iterator np = inprimes.begin();
         for(typename array::iterator pi = _primes.begin(); pi != _primes.end(); ++pi, ++np)
             *pi = Element( *np );
+        if (_primes.size()>0) { ComputeProd(); ComputeCk(); } // see above
     }
 
 #if 0
